@@ -136,7 +136,13 @@ def build_ops(names, scen, seed):  # noqa: C901
         'reg-meta': lambda: reg(T['TC'], NSC),
         'unreg': lambda: unreg(T['P'], NSC),
         'reg-same-a': lambda: reg(T['Q'], NSC, 'same'),
-        'reg-same-b': lambda: reg(T['Q'], NSC, 'same'),
+        'reg-same-b': lambda: reg(T['Q'], NSC, 'same', _fl2),
+        # the same race on classes whose registration runs Python code between the duplicate check and the commit
+        # (namedtuple class: warning hook; metaclass attribute hook)
+        'reg-same-nt-a': lambda: reg(T['NT'], NSC, 'same-nt'),
+        'reg-same-nt-b': lambda: reg(T['NT'], NSC, 'same-nt', _fl2),
+        'reg-same-meta-a': lambda: reg(T['TC'], NSC, 'same-meta'),
+        'reg-same-meta-b': lambda: reg(T['TC'], NSC, 'same-meta', _fl2),
         'reg-q': lambda: reg(T['Q'], NSC),
         'flatten-q': lambda: flatten_q(),
         'consume-a': consume('a'),
@@ -144,11 +150,11 @@ def build_ops(names, scen, seed):  # noqa: C901
         'classify': lambda: (optree.is_namedtuple_class(T['TC']), optree.is_structseq_class(T['TC']), optree.is_namedtuple_class(T['NT'])),
     }
 
-    def reg(cls, ns, tag=None):
+    def reg(cls, ns, tag=None, fl=_fl):
         try:
             with warnings.catch_warnings():
                 warnings.simplefilter('always')
-                optree.register_pytree_node(cls, _fl, _un, namespace=ns)
+                optree.register_pytree_node(cls, fl, _un, namespace=ns)
             out = 'registered'
         except ValueError:
             out = 'ValueError'
@@ -196,7 +202,8 @@ def all_pairs():
     for r in REGS:
         for a in ('flatten', 'flatten_with_path', 'iter', 'unflatten', 'map', 'pickle', 'eq', 'flatten_up_to', 'classify'):
             pairs.append((r, a))
-    pairs += [('reg-nt', 'reg-meta'), ('reg-nt', 'unreg'), ('reg-meta', 'unreg'), ('reg-same-a', 'reg-same-b'), ('reg-q', 'flatten-q'), ('consume-a', 'consume-b')]
+    pairs += [('reg-nt', 'reg-meta'), ('reg-nt', 'unreg'), ('reg-meta', 'unreg'), ('reg-same-a', 'reg-same-b'), ('reg-same-nt-a', 'reg-same-nt-b'), ('reg-same-meta-a', 'reg-same-meta-b'),
+              ('reg-q', 'flatten-q'), ('consume-a', 'consume-b')]
     return pairs
 
 
@@ -206,7 +213,7 @@ def triples(rng, n):
     for _ in range(n):
         t = tuple(rng.sample(pool_, 3))
         out.append(t)
-    out += [('reg-same-a', 'reg-same-b', 'flatten'), ('consume-a', 'consume-b', 'hash'), ('reg-q', 'flatten-q', 'reg-nt')]
+    out += [('reg-same-a', 'reg-same-b', 'flatten'), ('reg-same-nt-a', 'reg-same-nt-b', 'flatten'), ('reg-same-meta-a', 'reg-same-meta-b', 'classify'), ('consume-a', 'consume-b', 'hash'), ('reg-q', 'flatten-q', 'reg-nt')]
     return out
 
 
@@ -229,12 +236,33 @@ def check_schedule(sink, s, c, names, solo, ident):  # noqa: C901
             sink.check(r == ('ok', 'registered'), f'registration-failed/{n}', 'a registration of an unrelated type succeeds', dict(jid, op=n), repr(r))
         elif n == 'unreg':
             sink.check(r == ('ok', 'unregistered'), f'unregistration-failed/{n}', 'unregistering a registered type succeeds', dict(jid, op=n), repr(r))
-    if 'reg-same-a' in names:
-        outs = sorted(s.results[names.index(x)][1] if s.results[names.index(x)][0] == 'ok' else 'exc' for x in ('reg-same-a', 'reg-same-b'))
-        sink.check(outs == ['ValueError', 'registered'], 'same-registration-race', 'concurrent registrations of the same (type, namespace) succeed exactly once', jid, outs)
-        e = optree.register_pytree_node.get(c['T']['Q'], namespace=NSC)
-        sink.check(e is not None and e.namespace == NSC and optree.tree_structure(c['T']['Q'](), namespace=NSC).kind == optree.PyTreeKind.CUSTOM, 'same-registration-race/final-registry',
+    for fam, cls_key, make_inst in (('reg-same', 'Q', lambda t: t()), ('reg-same-nt', 'NT', lambda t: t(1, 2)), ('reg-same-meta', 'TC', lambda t: t((1, 2)))):
+        if fam + '-a' not in names:
+            continue
+        cls = c['T'][cls_key]
+        res = {x: (s.results[names.index(x)][1] if s.results[names.index(x)][0] == 'ok' else 'exc') for x in (fam + '-a', fam + '-b')}
+        outs = sorted(res.values())
+        sink.check(outs == ['ValueError', 'registered'], f'same-registration-race/{cls_key}', 'concurrent registrations of the same (type, namespace) succeed exactly once', jid, res)
+        e = optree.register_pytree_node.get(cls, namespace=NSC)
+        st = optree.tree_structure(make_inst(cls), namespace=NSC)
+        sink.check(e is not None and e.namespace == NSC and st.kind == optree.PyTreeKind.CUSTOM, f'same-registration-race/final-registry/{cls_key}',
                    'after the race the registry (engine and python view) contains the type exactly once', jid)
+        if outs == ['ValueError', 'registered'] and e is not None:
+            winner = _fl if res[fam + '-a'] == 'registered' else _fl2
+            engine_fl = _fl2 if 'conc-meta-2' in repr(st) else _fl
+            sink.check(e.flatten_func is winner and engine_fl is winner, f'same-registration-race/winner/{cls_key}',
+                       'the engine and the python view both hold the registration of the call that succeeded', jid, lambda: (res, repr(st), e.flatten_func.__name__))
+        # the type can be unregistered exactly once afterwards
+        u = []
+        for _ in range(2):
+            try:
+                optree.unregister_pytree_node(cls, namespace=NSC)
+                u.append('unregistered')
+            except Exception as ex:  # noqa: BLE001
+                u.append(type(ex).__name__)
+        sink.check(u[0] == 'unregistered' and u[1] != 'unregistered' and optree.tree_structure(make_inst(cls), namespace=NSC).kind != optree.PyTreeKind.CUSTOM,
+                   f'same-registration-race/unregister-once/{cls_key}', 'after the race the type is registered exactly once (one unregister removes it)', jid, u)
+        sink.count(f'same-registration-races:{cls_key}')
     if 'flatten-q' in names:
         r = s.results[names.index('flatten-q')]
         ok = r[0] == 'ok' and r[1][0] == 'flatten-q' and all(k in ('old', 'new') for k in r[1][1]) and r[1][2] == r[1][3]
@@ -251,6 +279,9 @@ def check_schedule(sink, s, c, names, solo, ident):  # noqa: C901
             if ra[1][1] and rb[1][1]:
                 sink.count('shared-iter-both-consumed')
         sink.check(ok, 'shared-iterator', 'a shared leaf iterator hands each leaf to exactly one consumer', jid, lambda: (repr(ra)[:300], repr(rb)[:300], len(c['leaves'])))
+    if s.blocked_events:
+        sink.count('schedules-with-a-thread-blocked-on-a-lock-held-by-a-parked-thread')
+        sink.count('blocked-events', s.blocked_events)
     for site, k in s.sites.items():
         sink.count(f'parked-at:{site.split(":")[0]}', k)
     sink.count('schedules')
@@ -569,5 +600,7 @@ def finalize(sink, tier, seed):
     sink.require('schedules', 1000)
     sink.require('stress-runs')
     sink.require('shared-iter-both-consumed')
+    for k in ('Q', 'NT', 'TC'):
+        sink.require(f'same-registration-races:{k}', 5)
     for site in ('pred', 'flatten', 'unflatten', 'f', 'f_node', 'f_leaf', 'key.__hash__', 'key.__eq__', 'key.__lt__', 'key.__repr__', 'meta.__eq__', 'entry.__init__', 'metaclass.__getattr__', 'warnings.showwarning'):
         sink.require(f'parked-at:{site}')
